@@ -62,6 +62,16 @@ Theorem C01s_pown x k :
 Proof. exact (pown_all x k). Qed.
 Print Assumptions C01s_pown.
 
+(* NOT covered by C01s_pown (hypothesis x <> 0): x^k is smooth at x = 0 for k >= 1 but pown_bw
+   evaluates k * gy * y / x = 0/0 there.  Full statement that would be wanted:
+     forall x k, int32 k -> (x <> 0 \/ (1 <= k)%Z) -> is_derive (fun x => fw_pown x k) x (bw_pown x (fw_pown x k) 1 k)
+   refuted already in the totalised reals at x = 0, k = 1 (and NaN on the implementation for all k;
+   the same 0/0 occurs in pow_const_r_bw and pow_bw at base 0). *)
+Theorem C01s_pown_bw_at_zero_refuted :
+  exists x k, int32 k /\ is_derive (fun x => fw_pown x k) x 1 /\ bw_pown x (fw_pown x k) 1 k <> 1.
+Proof. exact pown_bw_at_zero_refuted. Qed.
+Print Assumptions C01s_pown_bw_at_zero_refuted.
+
 (* CPUDEV_FW_AB and the hand-written add/subtract/multiply/divide/pow _bw_impl loops: both partial derivatives *)
 Theorem C01s_d_binary a b :
   (is_derive (fun a => fw_add a b) a (bw_add_a a b (fw_add a b) 1)) /\
